@@ -251,6 +251,42 @@ def check_get_nasa(run, repo, max_seg):
     return n_inst
 
 
+def shomate_units(run, repo, unit_list):
+    """the class getters evaluate the species' own coefficients in the species' own fitting unit; the same
+    coefficients in another unit scale with R(J/mol/K)/R(unit).  The concrete units are run before anything else of
+    this module, the symbolic unit (any unit the constants table knows) in its place among the class rules."""
+    sci = repo.cls(SHO + '.Shomate')
+    for units in unit_list:
+        Iu = Interp(repo, order=RankOrder({'sp.T_low': 1, 'sp.T_high': 5, 'T': 3}))
+        uval = Iu.D.sym('units') if units == 'symbolic' else units
+        misc = attached_models(Iu, 2)
+        ou = Obj('sp', sci, attrs={'a': coeff_vector(Iu, 'a', 8), 'misc_models': misc, 'name': 'sp'})
+        set_public(Iu, ou, 'units', uval)
+        sel_opaque(ou)
+        Tu, Pu = Iu.D.sym('T'), Iu.D.sym('P')
+        for q in ('CpoR', 'HoRT', 'SoR'):
+            got = Iu.call_method(ou, 'get_' + q, [], {'T': Tu, 'P': Pu})
+            mq, fq = fn_of(repo, SHO, 'get_shomate_' + q)
+            bare = Iu.call_function(mq, fq, [], {'a': ou.attrs['a'], 'T': Elem(Tu), 'units': uval})
+            bare = bare.r if isinstance(bare, Elem) else bare
+            want = Iu.binop('+', bare, attached_sum(Iu, misc, q, T=Tu, P=Pu))
+            owner, fn = repo.find_method(sci, 'get_' + q)
+            run.check(same(got, want), 'SEGMENT.use', 'shomate.Shomate.get_' + q, 'units:%s' % units,
+                      'with fitting unit %s the value is not the Shomate evaluator applied to the species\' coefficients '
+                      'in that unit plus the attached-model sum: %s, expected %s' % (units, show(got, 160), show(want, 160)),
+                      owner.module, fn)
+            if units not in ('symbolic', 'J/mol/K'):
+                # the same coefficients in another unit: the dimensionless value scales with R(J/mol/K)/R(unit)
+                ref = Iu.call_function(mq, fq, [], {'a': ou.attrs['a'], 'T': Elem(Tu), 'units': 'J/mol/K'})
+                ref = ref.r if isinstance(ref, Elem) else ref
+                RJ = Iu.D.sym('kb') * Iu.D.sym('Na')
+                Ru = Iu.native['pmutt.constants.R'](Iu, None, [units], {}, None)       # the unit model (verified by C12)
+                run.check(isinstance(Ru, Rat) and same(bare * Ru, ref * RJ), 'DIM.units', 'shomate.get_shomate_' + q,
+                          'units:%s' % units,
+                          'the evaluator in %s times R(%s) differs from the evaluator in J/mol/K times R(J/mol/K): the '
+                          'coefficients carry the fitting unit, nothing else may depend on it' % (units, units), mq, fq)
+
+
 def class_rules(run, repo, max_len):
     """TWIN G=H-S, segment use, scalar/array agreement for Nasa, Nasa9, Shomate"""
     n_bt = 0
@@ -329,36 +365,7 @@ def class_rules(run, repo, max_len):
         run.fn(owner.qual + '.get_GoRT')
         run.check(same(G, I.binop('-', Hh, Ss)), 'TWIN.G=H-S', 'shomate.Shomate.get_GoRT', 'S_elements=%s' % sel,
                   'GoRT differs from HoRT - SoR under identical arguments', owner.module, fn)
-    # the class getters evaluate the species' own coefficients in the species' own fitting unit
-    for units in ('symbolic', 'J/mol/K', 'kJ/mol/K', 'cal/mol/K', 'kcal/mol/K', 'eV/K'):
-        Iu = Interp(repo, order=RankOrder({'sp.T_low': 1, 'sp.T_high': 5, 'T': 3}))
-        uval = Iu.D.sym('units') if units == 'symbolic' else units
-        misc = attached_models(Iu, 2)
-        ou = Obj('sp', sci, attrs={'a': coeff_vector(Iu, 'a', 8), 'misc_models': misc, 'name': 'sp'})
-        set_public(Iu, ou, 'units', uval)
-        sel_opaque(ou)
-        Tu, Pu = Iu.D.sym('T'), Iu.D.sym('P')
-        for q in ('CpoR', 'HoRT', 'SoR'):
-            got = Iu.call_method(ou, 'get_' + q, [], {'T': Tu, 'P': Pu})
-            mq, fq = fn_of(repo, SHO, 'get_shomate_' + q)
-            bare = Iu.call_function(mq, fq, [], {'a': ou.attrs['a'], 'T': Elem(Tu), 'units': uval})
-            bare = bare.r if isinstance(bare, Elem) else bare
-            want = Iu.binop('+', bare, attached_sum(Iu, misc, q, T=Tu, P=Pu))
-            owner, fn = repo.find_method(sci, 'get_' + q)
-            run.check(same(got, want), 'SEGMENT.use', 'shomate.Shomate.get_' + q, 'units:%s' % units,
-                      'with fitting unit %s the value is not the Shomate evaluator applied to the species\' coefficients '
-                      'in that unit plus the attached-model sum: %s, expected %s' % (units, show(got, 160), show(want, 160)),
-                      owner.module, fn)
-            if units not in ('symbolic', 'J/mol/K'):
-                # the same coefficients in another unit: the dimensionless value scales with R(J/mol/K)/R(unit)
-                ref = Iu.call_function(mq, fq, [], {'a': ou.attrs['a'], 'T': Elem(Tu), 'units': 'J/mol/K'})
-                ref = ref.r if isinstance(ref, Elem) else ref
-                RJ = Iu.D.sym('kb') * Iu.D.sym('Na')
-                Ru = Iu.native['pmutt.constants.R'](Iu, None, [units], {}, None)       # the unit model (verified by C12)
-                run.check(isinstance(Ru, Rat) and same(bare * Ru, ref * RJ), 'DIM.units', 'shomate.get_shomate_' + q,
-                          'units:%s' % units,
-                          'the evaluator in %s times R(%s) differs from the evaluator in J/mol/K times R(J/mol/K): the '
-                          'coefficients carry the fitting unit, nothing else may depend on it' % (units, units), mq, fq)
+    shomate_units(run, repo, ('symbolic',))
     m, f = fn_of(repo, SHO, 'get_shomate_GoRT')
     a8 = coeff_vector(I, 'a', 8)
     u = I.D.sym('units')
@@ -628,6 +635,7 @@ def check(run, repo):
     run.undecided = ['floating-point agreement beyond the identity over the reals',
                      'behaviour for non-numeric T']
     thorough = run.tier == 'thorough'
+    shomate_units(run, repo, ('J/mol/K', 'kJ/mol/K', 'cal/mol/K', 'kcal/mol/K', 'eV/K'))
     fams = {}
     fams['nasa'] = slot_rules(run, repo, 'nasa', NASA, 'get_nasa_', 7)
     fams['nasa9'] = slot_rules(run, repo, 'nasa9', NASA, 'get_nasa9_', 9)
